@@ -18,6 +18,7 @@ mod c06;
 mod c10;
 mod c17;
 mod c01;
+mod c02;
 mod common;
 mod rng;
 mod c07;
@@ -77,6 +78,7 @@ fn main() {
         "C10" => c10::run,
         "C17" => c17::run,
         "C01" => c01::run,
+        "C02" => c02::run,
         _ => { eprintln!("unknown property {}", prop); std::process::exit(2); }
     };
     let range: Vec<u64> = match only {
